@@ -57,6 +57,10 @@ Section Stats.
   Definition standardize (m : nat) (sds : list T) (X : list (list T)) : list (list T) :=
     map (fun row => map2 gdiv row sds) (center_rows o m X).
 
+  (* standardize(center=False): the values themselves over the same pointwise sd *)
+  Definition standardize_nc (sds : list T) (X : list (list T)) : list (list T) :=
+    map (fun row => map2 gdiv row sds) X.
+
   (* rescale: weight = integral of the pointwise variance; values / sqrt(weight) *)
   Definition rescale_weight (x : list T) (X : list (list T)) : T :=
     trapz o x (pvars (length x) X).
@@ -73,5 +77,6 @@ Parametricity Recursive center.
 Parametricity Recursive normalize.
 Parametricity Recursive pvars.
 Parametricity Recursive standardize.
+Parametricity Recursive standardize_nc.
 Parametricity Recursive rescale_weight.
 Parametricity Recursive rescale.
